@@ -95,6 +95,18 @@ impl Retype for Tr<0> {
     fn low(self) -> [u8; 4] { self.id().to_le_bytes() }
     fn big(self) -> (u64, u64) { (self.id() as u64, 7) }
 }
+impl Retype for TrA {
+    type Low = [u8; 32];
+    type Big = [u64; 8];
+    fn low(self) -> [u8; 32] { let mut a = [0u8; 32]; a[..4].copy_from_slice(&self.ident().to_le_bytes()); a }
+    fn big(self) -> [u64; 8] { [self.ident() as u64; 8] }
+}
+impl Retype for B3 {
+    type Low = [u8; 3];
+    type Big = u32;
+    fn low(self) -> [u8; 3] { self.0 }
+    fn big(self) -> u32 { self.ident() }
+}
 impl Retype for TrZ {
     type Low = ();
     type Big = u8;
@@ -133,7 +145,7 @@ fn vec_of<E: Elem>(len: usize, cap_mode: u8) -> Vec<E> {
 
 struct Script<E: Elem> {
     remaining: usize,
-    /// 0: (0, None)   1: exact   2: bounded but loose (0, Some(2 rem + 1))
+    /// 0: (0, None)   1: exact   2: bounded but loose (0, Some(2 rem + 1))   3: (0, Some(usize::MAX))   4: (rem, Some(usize::MAX))
     hint: u8,
     _p: core::marker::PhantomData<E>,
 }
@@ -152,7 +164,9 @@ impl<E: Elem> Iterator for Script<E> {
         match self.hint {
             0 => (0, None),
             1 => (self.remaining, Some(self.remaining)),
-            _ => (0, Some(2 * self.remaining + 1)),
+            2 => (0, Some(2 * self.remaining + 1)),
+            3 => (0, Some(usize::MAX)),
+            _ => (self.remaining, Some(usize::MAX)),
         }
     }
 }
@@ -655,7 +669,7 @@ fn for_each_case(mut visit: impl FnMut(&str, CaseFn)) {
                         let mut v = vec![0, 1, n / 2, n];
                         v.sort(); v.dedup(); v
                     } else { vec![n] };
-                    let caps: &[u8] = if op.takes_cap() { &[0, 1, 2] } else { &[0] };
+                    let caps: &[u8] = if matches!(op, TryBoxedFromIter | BoxFromIter) { &[0, 1, 2, 3, 4] } else if op.takes_cap() { &[0, 1, 2] } else { &[0] };
                     for &l in &ls {
                         for &cap in caps {
                             let d = format!("{op:?};N={n};E={};L={l};cap={cap}", <$E as Elem>::NAME);
@@ -671,6 +685,9 @@ fn for_each_case(mut visit: impl FnMut(&str, CaseFn)) {
             per_elem!(u8);
             per_elem!(u64);
             per_elem!(());
+            // unusual representations: over-aligned drop-tracked (size = align = 32) and 3-byte elements
+            per_elem!(TrA);
+            per_elem!(B3);
         }
     });
 }
